@@ -20,6 +20,10 @@ def Nul (t : Ty) (v : SV) : Prop := v = .null ∨ tyOf v = some t
     tyOf (if c then SV.null else SV.dbl x) = some .dbl ↔ ¬ c := by
   split <;> simp [*]
 
+@[simp] theorem tyOf_ite_null_int (c : Prop) [Decidable c] (x : Int) :
+    tyOf (if c then SV.null else SV.int x) = some .int ↔ ¬ c := by
+  split <;> simp [*]
+
 theorem rowOk_getD {cols : List Ty} {r : Row} (hr : RowOk cols r) {i : Nat} {t : Ty}
     (hc : cols[i]? = some t) : Nul t (r.getD i .null) := by
   rw [List.getD_eq_getElem?_getD]
@@ -27,6 +31,7 @@ theorem rowOk_getD {cols : List Ty} {r : Row} (hr : RowOk cols r) {i : Nat} {t :
   | none => left; rfl
   | some v => exact hr.2 i v t h hc
 
+/-- `+ - * %` on numeric operands (`%` is null when the divisor is zero) -/
 theorem arith_ok (op : Arith) (hop : op ≠ .div) (a b : SV) (ta tb : Ty)
     (hta : ta = .int ∨ ta = .dbl) (htb : tb = .int ∨ tb = .dbl) (ha : Nul ta a) (hb : Nul tb b) :
     arithM op a b = .ok (arithS op a b) ∧
@@ -34,7 +39,7 @@ theorem arith_ok (op : Arith) (hop : op ≠ .div) (a b : SV) (ta tb : Ty)
   unfold Nul at *
   rcases hta with rfl | rfl <;> rcases htb with rfl | rfl <;>
     cases a <;> cases b <;> cases op <;>
-    simp_all [arithM, arithS, ratArith, num?, tyOf]
+    simp_all [arithM, arithS, ratArith, num?, Decidable.em]
 
 theorem div_ok (a b : SV) (ta tb : Ty)
     (hta : ta = .int ∨ ta = .dbl) (htb : tb = .int ∨ tb = .dbl) (ha : Nul ta a) (hb : Nul tb b) :
@@ -42,6 +47,79 @@ theorem div_ok (a b : SV) (ta tb : Ty)
   rcases hta with rfl | rfl <;> rcases htb with rfl | rfl <;>
     cases a <;> cases b <;>
     simp_all [Nul, arithM, arithS, ratArith, num?, Decidable.em]
+
+/-! ### remainder -/
+
+-- equality of evaluation results is decidable (core has no such instance; the concrete `example`s use it)
+deriving instance DecidableEq for Except
+
+/-- the integer remainder of the truncated division: `|r| < |y|`, sign of the dividend -/
+theorem tmod_bounds (x y : Int) (hy : y ≠ 0) :
+    x = y * Int.tdiv x y + Int.tmod x y ∧ (Int.tmod x y).natAbs < y.natAbs ∧
+    (0 ≤ x → 0 ≤ Int.tmod x y) ∧ (x ≤ 0 → Int.tmod x y ≤ 0) := by
+  refine ⟨(Int.mul_tdiv_add_tmod x y).symm, ?_, Int.tmod_nonneg y, ?_⟩
+  · rw [Int.natAbs_tmod]; exact Nat.mod_lt _ (by omega)
+  · intro hx
+    have := Int.tmod_nonneg (a := -x) y (by omega)
+    rw [Int.neg_tmod] at this; omega
+
+/-- `truncR q` lies between `0` and `q`, less than one away from `q` -/
+theorem truncR_bounds (q : Rat) :
+    (0 ≤ q → 0 ≤ (truncR q : Rat) ∧ (truncR q : Rat) ≤ q ∧ q < (truncR q : Rat) + 1) ∧
+    (q < 0 → (truncR q : Rat) ≤ 0 ∧ q ≤ (truncR q : Rat) ∧ (truncR q : Rat) - 1 < q) := by
+  have h1 := Rat.floor_le q
+  have h2 := Rat.lt_floor_add_one q
+  have h3 := Rat.floor_le (-q)
+  have h4 := Rat.lt_floor_add_one (-q)
+  simp only [Rat.intCast_add] at h2 h4
+  unfold truncR
+  constructor
+  · intro h
+    have h0 : ((0 : Int) : Rat) ≤ (q.floor : Rat) :=
+      Rat.intCast_le_intCast.2 (Rat.le_floor_iff.2 (by simpa using h))
+    rw [if_pos h]; grind
+  · intro h
+    have h0 : ((0 : Int) : Rat) ≤ ((-q).floor : Rat) :=
+      Rat.intCast_le_intCast.2 (Rat.le_floor_iff.2 (by simp; grind))
+    rw [if_neg (by grind)]; simp only [Rat.intCast_neg]; grind
+
+/-- multiplying by a positive factor keeps the strict comparisons with `0`, `1`, `-1` -/
+theorem scale_pos (s q d : Rat) (hs : 0 < s) :
+    (s * q < 0 ↔ q < 0) ∧ (0 < s * q ↔ 0 < q) ∧ (s * d < 0 ↔ d < 0) ∧ (0 < s * d ↔ 0 < d) ∧
+    (s * d < s ↔ d < 1) ∧ (-s < s * d ↔ -1 < d) := by
+  have h1 := Rat.mul_lt_mul_left (a := q) (b := 0) hs
+  have h2 := Rat.mul_lt_mul_left (a := 0) (b := q) hs
+  have h3 := Rat.mul_lt_mul_left (a := d) (b := 0) hs
+  have h4 := Rat.mul_lt_mul_left (a := 0) (b := d) hs
+  have h5 := Rat.mul_lt_mul_left (a := d) (b := 1) hs
+  have h6 := Rat.mul_lt_mul_left (a := -1) (b := d) hs
+  simp only [Rat.mul_zero, Rat.mul_one, Rat.mul_neg] at h1 h2 h3 h4 h5 h6
+  exact ⟨h1, h2, h3, h4, h5, h6⟩
+
+/-- the rational remainder `x - y * trunc(x / y)` has the sign of the dividend and `|r| < |y|` -/
+theorem ratRem_bounds (x y : Rat) (hy : y ≠ 0) :
+    (0 ≤ x → 0 ≤ ratRem x y) ∧ (x ≤ 0 → ratRem x y ≤ 0) ∧
+    (ratRem x y < (if 0 ≤ y then y else -y)) ∧ ((if 0 ≤ y then -y else y) < ratRem x y) := by
+  unfold ratRem
+  have hx : x = y * (x / y) := by rw [Rat.mul_comm, Rat.div_mul_cancel hy]
+  generalize x / y = q at hx
+  subst hx
+  obtain ⟨hp, hn⟩ := truncR_bounds q
+  generalize (truncR q : Rat) = t at hp hn
+  have hd : y * q - y * t = y * (q - t) := by grind
+  rw [hd]
+  have hp' : 0 ≤ q → 0 ≤ q - t ∧ q - t < 1 ∧ q - t ≤ q := by grind
+  have hn' : q < 0 → -1 < q - t ∧ q - t ≤ 0 ∧ q ≤ q - t := by grind
+  generalize q - t = d at hp' hn'
+  have hcase : y < 0 ∨ 0 < y := by grind
+  rcases hcase with hneg | hpos
+  · obtain ⟨h1, h2, h3, h4, h5, h6⟩ := scale_pos (-y) q d (by grind)
+    rw [if_neg (by grind), if_neg (by grind)]
+    simp only [Rat.neg_mul] at h1 h2 h3 h4 h5 h6
+    grind
+  · obtain ⟨h1, h2, h3, h4, h5, h6⟩ := scale_pos y q d hpos
+    rw [if_pos (by grind), if_pos (by grind)]
+    grind
 
 theorem cmpNum_ok (op : Cmp) (a b : SV) (ta tb : Ty)
     (hta : ta = .int ∨ ta = .dbl) (htb : tb = .int ∨ tb = .dbl) (ha : Nul ta a) (hb : Nul tb b) :
@@ -109,7 +187,7 @@ theorem eval_ok (cols : List Ty) (e : Expr) (t : Ty) (r : Row)
     simp only [evalM, evalS, ih.1, bind, Except.bind]
     exact neg_ok _ t ht ih.2
   | arith mk a b ta tb hmk hta htb _ _ iha ihb =>
-    rcases hmk with rfl | rfl | rfl <;>
+    rcases hmk with rfl | rfl | rfl | rfl <;>
       simp only [evalM, evalS, iha.1, ihb.1, bind, Except.bind] <;>
       exact arith_ok _ (by decide) _ _ ta tb hta htb iha.2 ihb.2
   | div a b ta tb hta htb _ _ iha ihb =>
